@@ -259,7 +259,7 @@ class Scenario:
 
     connect_faults = False
     generation = (0,)
-    exc_range = (2, 2)          # C04: one exception code (C08 explores the codes)
+    exc_range = (11, 12)        # C04: a named exception code and one outside the reason table (C08 explores the codes)
     split_choices = "two"       # C04: header-only and all-but-two-bytes splits (C07 explores every split point)
 
 
